@@ -37,6 +37,11 @@ CHECKS = {
    note="Pre-emption granularity is one source line (sys.monitoring LINE events); C extensions, lark (except in trace_lark runs of the thorough tier) and the stdlib are atomic. The choice of who runs is the only stub. Free-running OS-scheduled stress is deliberately not used (not replayable).",
    technique="deterministic simulation: real threads under a seeded baton-passing scheduler (PCT/random/hot policies), alone-run oracle, schedule ddmin, explicit switch-list replay",
    ref="3 (C16)"),
+ "C20": dict(
+   text="celpy.__main__.main(argv) runs in-process on simulated standard streams (real TextIOWrapper/BufferedReader over a seeded short-read byte source) with the stream faults of the family applied to NDJSON lines: loss, duplication, reordering, torn line, garbage line, EOF without newline, CRLF, short reads, a line longer than the 8 KiB buffer. Oracles: a reference evaluator over the CLI fragment (-n output/status, -b statuses, syntax-error status and location, per-document value), and the history oracle that the output/status of a stream equal the concatenation/maximum of the CLI's behaviour on each line alone from a pristine state; a sample also goes through a real `python -m celpy` process. Sampling, not proof.",
+   note="Only the raw byte source and the output sinks are simulated. Per-line behaviour the statement does not fix (error marker and its status) is taken from the one-line run. Blank lines, undecodable bytes, read errors and a closed stdout are not injected (statement silent).",
+   technique="deterministic simulation of the CLI on simulated stdin/stdout with seeded stream-fault injection (loss/dup/reorder/torn/garbage/short reads); per-line alone-run history oracle + reference model; ddmin replay",
+   ref="3 (C20)"),
 }
 
 def check(pid, c):
